@@ -74,6 +74,20 @@ CHECKS = {
              "are validated against the scalar transition relation of the analysis model (SnapStep).",
         design="6 (C06), 3.5", technique="TLA+ invariants on the analysis model + trace validation of returned models and collector snapshots",
         note=DOC_NOTE),
+    "C10": dict(
+        text="spec/CookGroup.tla models GroupedQuantity's buckets (text and failed adds aside, unitless, one total per physical "
+             "quantity, one per unknown unit) over a model converter with small integer ratios, amounts in exact quarter "
+             "units; TLC explores every add sequence into two groups followed by a merge and checks Conservation (totals per "
+             "class and the multiset of text values) as an invariant. The same operation sequences are replayed on the real "
+             "GroupedQuantity and TLC judges the totals observed after every step and after fit (spec/Trace_Group.tla). "
+             "For recipes, valid CookDoc documents go through group_ingredients, IngredientList (one recipe, twice) and "
+             "categorize with an aisle file whose synonyms collide with listed names; TLC recomputes the expected totals "
+             "from the recipe's quantities with the same operators (spec/Trace_List.tla): grouped = definitions in recipe "
+             "order, each quantity once under the definition CookAnalysis resolves it to, hidden/reference-only not listed, "
+             "lists and categories conserve.",
+        design="6 (C10), 3.7", technique="TLA+ bucket model with exact arithmetic + TLC exhaustive add/merge sequences + trace validation of totals",
+        note="Trusted: TLC; exactness relies on the model converter's integer ratios (the recorder flags any total that is "
+             "not within 1e-6 of a quarter unit). The bundled converter's non-integer ratios are exercised by C09, not here."),
     "C11": dict(
         text="TLC explores the line-at-a-time model of aisle::parse (spec/CookAisle.tla) exhaustively over every symbol "
              "string up to a bound and every file of pool lines, checking duplicate-freedom, span bounds, lookup and "
